@@ -119,6 +119,9 @@ pub enum End {
 
 #[derive(Default, Debug)]
 pub struct SideObs {
+    pub first_write_ns: Option<u64>,
+    /// when this side sent its FIN / RST (half-close, close or abort)
+    pub fin_ns: Option<u64>,
     pub recv: Vec<u8>,
     /// (simulated ns, bytes received so far) after every read
     pub recv_log: Vec<(u64, usize)>,
@@ -141,6 +144,24 @@ pub struct FlowObs {
 }
 
 pub type Shared<T> = Arc<Mutex<T>>;
+
+/// A spawned helper task that dies with its owner (structured cancellation: aborting a node's task must not leave
+/// its reader tasks – and the sockets they hold – behind).
+pub struct AbortOnDrop<T>(pub JoinHandle<T>);
+
+impl<T> Drop for AbortOnDrop<T> {
+    fn drop(&mut self) {
+        self.0.abort();
+    }
+}
+
+pub fn spawn_scoped<F>(fut: F) -> AbortOnDrop<F::Output>
+where
+    F: std::future::Future + Send + 'static,
+    F::Output: Send + 'static,
+{
+    AbortOnDrop(tokio::spawn(fut))
+}
 
 pub fn now_ns() -> u64 {
     world::with(|w| w.now_ns())
@@ -188,6 +209,7 @@ async fn run_ops<W: tokio::io::AsyncWrite + Unpin>(w: &mut W, ops: &[Op], flow: 
         let mut o = obs.lock().unwrap();
         let side = if is_app { &mut o.app } else { &mut o.target };
         side.wrote += prefix.len();
+        side.first_write_ns.get_or_insert(now_ns());
     }
     for op in ops {
         match op {
@@ -199,7 +221,10 @@ async fn run_ops<W: tokio::io::AsyncWrite + Unpin>(w: &mut W, ops: &[Op], flow: 
                 let mut o = obs.lock().unwrap();
                 let side = if is_app { &mut o.app } else { &mut o.target };
                 match res {
-                    Ok(()) => side.wrote += n,
+                    Ok(()) => {
+                        side.wrote += n;
+                        side.first_write_ns.get_or_insert(now_ns());
+                    }
                     Err(e) => {
                         side.write_err = Some(format!("{:?}", e.kind()));
                         return;
@@ -346,7 +371,7 @@ pub async fn run_app(ix: usize, f: TcpFlow, obs: Shared<FlowObs>, atomic_handsha
     let cid = s.conn_id();
     let (tx, mut rx) = watch::channel(0usize);
     let (rd, mut wr) = tokio::io::split(s);
-    let reader = tokio::spawn(pump_reads(rd, obs.clone(), true, tx));
+    let reader = spawn_scoped(pump_reads(rd, obs.clone(), true, tx));
     if f.hs == LocalHs::HttpPlain {
         // the request line is the handshake: it is delivered in one piece, the rest of the stream is not
         run_ops(&mut wr, &[], ix, 0, &prefix, &obs, true).await;
@@ -373,17 +398,23 @@ pub async fn run_app(ix: usize, f: TcpFlow, obs: Shared<FlowObs>, atomic_handsha
             // half-close (what a well-behaved application does): FIN now, keep reading until the proxy ends the flow.
             // A full close with answers still in flight is an abort (RST on the next segment) and belongs to C15.
             let _ = wr.shutdown().await;
+            obs.lock().unwrap().app.fin_ns = Some(now_ns());
             let _ = rx.wait_for(|n| *n == usize::MAX).await;
         }
+        Ending::AppAbandon => {}
         Ending::AppAfterAll => {
             let want = f.down_total();
             // slow is not stalled: wait as long as it takes; the driver decides when nothing moves any more
             let _ = rx.wait_for(|n| *n >= want).await;
         }
         Ending::AppReset => {
-            reader.abort();
-            let _ = reader.await;
-            obs.lock().unwrap().app.closed_ns = Some(now_ns());
+            reader.0.abort();
+            let _ = (&mut { reader }.0).await;
+            {
+                let mut o = obs.lock().unwrap();
+                o.app.closed_ns = Some(now_ns());
+                o.app.fin_ns.get_or_insert(now_ns());
+            }
             reset_conn(cid);
             drop(wr);
             return;
@@ -393,9 +424,13 @@ pub async fn run_app(ix: usize, f: TcpFlow, obs: Shared<FlowObs>, atomic_handsha
             std::future::pending::<()>().await;
         }
     }
-    reader.abort();
-    let _ = reader.await;
-    obs.lock().unwrap().app.closed_ns = Some(now_ns());
+    reader.0.abort();
+    let _ = (&mut { reader }.0).await;
+    {
+        let mut o = obs.lock().unwrap();
+        o.app.closed_ns = Some(now_ns());
+        o.app.fin_ns.get_or_insert(now_ns());
+    }
     drop(wr);
 }
 
@@ -429,6 +464,9 @@ pub fn target_addr(f: &TcpFlow) -> SocketAddr {
 
 /// One scripted target: listens on the flow's own address, serves every connection it gets (one is expected).
 pub async fn run_target(ix: usize, f: TcpFlow, obs: Shared<FlowObs>) {
+    if f.target_fault.is_some() {
+        return;
+    }
     let listener = match TcpListener::bind(target_addr(&f)).await {
         Ok(l) => l,
         Err(e) => {
@@ -446,7 +484,7 @@ pub async fn run_target(ix: usize, f: TcpFlow, obs: Shared<FlowObs>) {
         };
         if !first {
             // a second dial for the same flow is itself a violation; hold it open so it stays visible
-            conns.push(tokio::spawn(async move {
+            conns.push(spawn_scoped(async move {
                 let _s = s;
                 std::future::pending::<()>().await;
             }));
@@ -454,11 +492,11 @@ pub async fn run_target(ix: usize, f: TcpFlow, obs: Shared<FlowObs>) {
         }
         let f = f.clone();
         let obs = obs.clone();
-        conns.push(tokio::spawn(async move {
+        conns.push(spawn_scoped(async move {
             let cid = s.conn_id();
             let (tx, mut rx) = watch::channel(0usize);
             let (rd, mut wr) = tokio::io::split(s);
-            let reader = tokio::spawn(pump_reads(rd, obs.clone(), false, tx));
+            let reader = spawn_scoped(pump_reads(rd, obs.clone(), false, tx));
             let wait = f.target_waits_for.clamp(1, expected_up(&f, ix).len().max(1));
             let _ = rx.wait_for(|n| *n >= wait).await;
             run_ops(&mut wr, &f.down, ix, 1, &[], &obs, false).await;
@@ -466,17 +504,23 @@ pub async fn run_target(ix: usize, f: TcpFlow, obs: Shared<FlowObs>) {
             match f.ending {
                 Ending::TargetAfterWrite => {
                     let _ = wr.shutdown().await;
+                    obs.lock().unwrap().target.fin_ns = Some(now_ns());
                     let _ = rx.wait_for(|n| *n == usize::MAX).await;
                 }
+                Ending::TargetAbandon => {}
                 Ending::TargetAfterAll => {
                     let want = expected_up(&f, ix).len();
                     // slow is not stalled: wait as long as it takes; the driver decides when nothing moves any more
             let _ = rx.wait_for(|n| *n >= want).await;
                 }
                 Ending::TargetReset => {
-                    reader.abort();
-                    let _ = reader.await;
-                    obs.lock().unwrap().target.closed_ns = Some(now_ns());
+                    reader.0.abort();
+                    let _ = (&mut { reader }.0).await;
+                    {
+                        let mut o = obs.lock().unwrap();
+                        o.target.closed_ns = Some(now_ns());
+                        o.target.fin_ns.get_or_insert(now_ns());
+                    }
                     reset_conn(cid);
                     drop(wr);
                     return;
@@ -485,9 +529,13 @@ pub async fn run_target(ix: usize, f: TcpFlow, obs: Shared<FlowObs>) {
                     std::future::pending::<()>().await;
                 }
             }
-            reader.abort();
-            let _ = reader.await;
-            obs.lock().unwrap().target.closed_ns = Some(now_ns());
+            reader.0.abort();
+            let _ = (&mut { reader }.0).await;
+            {
+                let mut o = obs.lock().unwrap();
+                o.target.closed_ns = Some(now_ns());
+                o.target.fin_ns.get_or_insert(now_ns());
+            }
             drop(wr);
         }));
     }
